@@ -294,7 +294,7 @@ def handler_types(repo, res):
             for call, _g in o.impl_calls:
                 for i, a in enumerate(call.args):
                     n = a.value if isinstance(a, ast.Starred) else a
-                    if isinstance(n, ast.Name) and _reads_units_of(h.fn, n.id) and not _numpy_strips_first(strips, norm(call.func.value), i, isinstance(a, ast.Starred)):
+                    if isinstance(n, ast.Name) and _reads_units_of(h.fn, n.id) and not _numpy_strips_first(strips, norm(call.func.value), i, isinstance(a, ast.Starred)) and not _stripped_before(h.fn, n.id, call):
                         seen_raw.add((norm(call.func.value), n.id))
         hz = []
         for node, raw, mono in ui.hazards:
@@ -304,6 +304,25 @@ def handler_types(repo, res):
                 own = (not mono.is_opaque) and any(re.match(r"U\((%s|%s)\b" % (re.escape(base), re.escape(name)), k) for k in mono.atoms)
                 if own and _reads_units_of(h.fn, name) and not _numpy_strips_first(strips, npf, pos, pos == "*"):
                     hz.append((node, npf, name))
+        # several operands handed over with their units on (or a starred list of them): NumPy's Python-level paths
+        # combine them through unyt's own multiply / tensordot, which moves the ratio of commensurable units into the
+        # numbers (km * 1/m: data * 1000, unit dimensionless).  Labelling that result with the handler's own,
+        # unsimplified product of the units counts the factor twice - whether the label is multiplied in or constructed.
+        by_fn = {}
+        starred_raw = set()
+        for o in outs:
+            for call, _g in o.impl_calls:
+                for i, a in enumerate(call.args):
+                    n = a.value if isinstance(a, ast.Starred) else a
+                    if isinstance(n, ast.Name) and (norm(call.func.value), n.id) in seen_raw:
+                        by_fn.setdefault(norm(call.func.value), set()).add(n.id)
+                        if isinstance(a, ast.Starred):
+                            starred_raw.add((norm(call.func.value), n.id))
+        for npf, names in sorted(by_fn.items()):
+            multi = len(names) >= 2 or any((npf, nm) in starred_raw for nm in names)
+            if multi:
+                n_raw += 1
+                res.bad(f"{h.key}:raw-operands-combined", h.fn.where(), f"{h.key} hands several operands ({', '.join(sorted(names))}) to {npf}._implementation with their units on and labels the result with its own product of the units: on NumPy's Python-level paths (einsum with optimize=True) the operands are combined through unyt's multiply, which already moves the ratio of commensurable units into the numbers - np.einsum('i,i->', [1, 2] km, [1, 1] 1/m, optimize=True) is 3e6 instead of 3000", "operands stripped (np.asarray) before the NumPy call", sorted(names), rid=r10)
         for npf, name in sorted(seen_raw):
             n_raw += 1
             mine = [x for x in hz if x[1] == npf and x[2] == name]
@@ -356,6 +375,34 @@ def _numpy_strips_first(strips, npf_text, pos, star):
     if pos >= len(params):
         return False
     return params[pos] in row["stripped"]
+
+
+def _stripped_before(fn, name, call):
+    """has `name` been re-bound, before the NumPy call, to bare-array versions of itself?
+    name = np.asarray(name) | name.view(np.ndarray) | [np.asarray(x) for x in name] (list / tuple / generator forms)"""
+
+    def bare(e, var):
+        if isinstance(e, ast.Call):
+            f = norm(e.func)
+            if f in ("np.asarray", "np.array", "np.asanyarray", "numpy.asarray") and e.args and isinstance(e.args[0], ast.Name) and e.args[0].id == var:
+                return f != "np.asanyarray"
+            if isinstance(e.func, ast.Attribute) and e.func.attr == "view" and isinstance(e.func.value, ast.Name) and e.func.value.id == var and e.args and norm(e.args[0]) in ("np.ndarray", "numpy.ndarray"):
+                return True
+        return False
+
+    for n in walk_no_nested(fn.node):
+        if not (isinstance(n, ast.Assign) and len(n.targets) == 1 and isinstance(n.targets[0], ast.Name) and n.targets[0].id == name and n.lineno < call.lineno):
+            continue
+        v = n.value
+        if isinstance(v, ast.Call) and norm(v.func) in ("list", "tuple") and len(v.args) == 1:
+            v = v.args[0]
+        if bare(v, name):
+            return True
+        if isinstance(v, (ast.ListComp, ast.GeneratorExp)) and len(v.generators) == 1 and not v.generators[0].ifs:
+            g = v.generators[0]
+            if isinstance(g.iter, ast.Name) and g.iter.id == name and isinstance(g.target, ast.Name) and bare(v.elt, g.target.id):
+                return True
+    return False
 
 
 def _reads_units_of(fn, name):
@@ -547,6 +594,8 @@ def wrapup_rule(repo, res):
 UO = "unyt/unit_object.py"
 
 MUTANTS = [
+    Mutant("einsum-operands-with-units-on", AF, "einsum", "    operands = [np.asarray(op) for op in operands]\n", "", ("C07-R10",)),
+    Mutant("twin-einsum-strips-into-tuple", AF, "einsum", "    operands = [np.asarray(op) for op in operands]\n", "    operands = tuple(np.asarray(op) for op in operands)\n", (), benign=True),
     Mutant("masked-copyto-relabels", AF, "copyto", "        np.copyto._implementation(dst, src.to(dst.units), *args, **kwargs)\n        return\n", "        pass\n", ("C07-R11",)),
     Mutant("product-helper-drops-coefficient", AF, "product_helper", 'prod_units = getattr(a, "units", NULL_UNIT) * getattr(b, "units", NULL_UNIT)', '_, prod_units = _multiply_units(getattr(a, "units", NULL_UNIT), getattr(b, "units", NULL_UNIT))', ("C07-R1",)),
     Mutant("var-linear", AF, "var", "a.units**2", "a.units", ("C07-R1",)),
@@ -577,7 +626,9 @@ MUTANTS = [
     Mutant("vecdot-passthrough", ARR, None, "_ufunc_registry[vecdot] = _multiply_units", "_ufunc_registry[vecdot] = _passthrough_unit", ("C07-R6",)),
     Mutant("clip-out-not-relabelled", AF, "clip_impl", "        out.units = a.units\n", "        pass\n", ("C07-R7",)),
     Mutant("get-units-dedupes", AF, "get_units", "    return units\n", "    return list(dict.fromkeys(units))\n", ("C07-R8",)),
-    Mutant("einsum-multiplies-unit-in", AF, "einsum", "    if res.ndim == 0:\n        cls = unyt_quantity\n    else:\n        cls = unyt_array\n\n    return cls(res, ret_units, bypass_validation=True)", "    return res * ret_units", ("C07-R10",)),
+    # with the operands stripped before the NumPy call (repair of the einsum defect) multiplying the unit in is correct
+    Mutant("twin-einsum-multiplies-unit-in", AF, "einsum", "    if res.ndim == 0:\n        cls = unyt_quantity\n    else:\n        cls = unyt_array\n\n    return cls(res, ret_units, bypass_validation=True)", "    return res * ret_units", (), benign=True),
+    Mutant("einsum-raw-operands-and-unit-multiplied-in", AF, "einsum", "    operands = [np.asarray(op) for op in operands]\n    res = np.einsum._implementation(subscripts, *operands, out=out_view, **kwargs)\n", "    res = np.asarray(np.einsum._implementation(subscripts, *operands, out=out_view, **kwargs)) * ret_units\n", ("C07-R10",)),
     Mutant("einsum-strips-then-multiplies", AF, "einsum", "    res = np.einsum._implementation(subscripts, *operands, out=out_view, **kwargs)\n\n    if getattr(out, \"units\", None) is not None:\n        out.units = ret_units\n\n    if res.ndim == 0:\n        cls = unyt_quantity\n    else:\n        cls = unyt_array\n\n    return cls(res, ret_units, bypass_validation=True)", "    res = np.einsum._implementation(subscripts, *[np.asarray(o) for o in operands], out=out_view, **kwargs)\n\n    if getattr(out, \"units\", None) is not None:\n        out.units = ret_units\n\n    return res * ret_units", (), benign=True),
     Mutant("range-limit-wrong-axis", AF, "_sanitize_range", "imin.to_value(units[i]), imax.to_value(units[i])", "imin.to_value(units[i]), imax.to_value(units[0])", ("C07-R5",)),
 ]
